@@ -174,8 +174,10 @@ CHECKS = {
         "executed Float model; epsilon / beta formulas over ordered fields (beta from exactly the epoch's epsilons); over R: Hellinger and Jensen-Shannon are 0 "
         "on equal histograms, symmetric, bounded by sqrt(2) / sqrt(ln 2), histogram totals and numpy's bin rule. Tied to the code by per-call correspondence "
         "(np.histogram and scipy rel_entr semantics modelled in Lean) and declarative clauses recomputed on implementation records.",
-   note="Float rounding, the bootstrap epsilon_0 (replayed from the seeded DataFrame.sample draws and checked against the public thresholds) and the t critical "
-        "value (scipy, df validated) are inputs. The +-1 edge corrections of np.histogram are tied to numpy only by the correspondence. Known finding: "
+   note="Float rounding and the t critical value (scipy, df validated) are inputs. The bootstrap epsilon_0 (_estimate_initial_epsilon) is computed by the Lean "
+        "model (Model/HDMBoot.lean, theorems in Props/C07Boot.lean: epsilon_0 >= 0, = 0 iff all pairwise subset distances coincide, reads only the sampled rows, "
+        "bootstrap form = oracle form so all C07 theorems transfer); its only inputs are the row positions drawn by DataFrame.sample, captured by wrapping "
+        "np.random.choice in the harness process and shape-checked by the model. The +-1 edge corrections of np.histogram are tied to numpy only by the correspondence. Known finding: "
         "detect_batch=1 with a 2-row new reference.",
    technique="Lean 4 proof (invariants / induction over batch histories, field algebra, real analysis for the divergence bounds) + differential correspondence + declarative clauses on implementation records",
    ref="§7 C07"),
